@@ -247,6 +247,133 @@ def _body(kinds, cfg):
         world.close()
 
 
+class Comp:
+    """Model of one connected pipeline: at most one loop and one mode."""
+
+    def __init__(self):
+        self.loop = None
+        self.mode = None
+        self.parent = None
+
+    def find(self):
+        c = self
+        while c.parent is not None:
+            c = c.parent
+        return c
+
+
+JOIN_CFG = (0, 1, 2, 3, 6)      # nothing | asynchronous=True | asynchronous=False | loop=A | loop=B
+
+
+def pre_join(shard, *v):
+    for x in v:
+        if not (0 <= x <= 4):
+            return False
+    return True
+
+
+def body_join(shard, *v):
+    picked = [pick(x, 0, 4) for x in v]
+    cfg = [JOIN_CFG[picked[0]], JOIN_CFG[picked[1]], 0, JOIN_CFG[picked[2]], JOIN_CFG[picked[3]]]
+    with untraced():
+        return _join(shard, cfg)
+
+
+def _join(shard, cfg):
+    """Two branches joined by a multi-input node, then a node attached late to the branch
+    that had no loop: the loop/mode of the joined pipeline must be respected there too."""
+    vd = Verdict()
+    world = World()
+    rec = {"threads": [], "started": 0, "bg_loops": []}
+    saved = install_recorders(world, rec)
+    try:
+        A = world.io
+        B = OtherLoop({"bg_loops": []})
+
+        def args_of(c, kind):
+            a = (None, True, False)[c % 3]
+            l = (None, A, B)[c // 3]
+            if kind not in ACCEPTS and kind not in ("union", "zip"):
+                a, l = None, None
+            kw = {}
+            if a is not None:
+                kw["asynchronous"] = a
+            if l is not None:
+                kw["loop"] = l
+            return a, l, kw
+
+        comps = {}
+        nodes = {}
+        order = [("e0", shard["e0"], []), ("e1", "Stream", []), ("a", "map", ["e1"]),
+                 ("J", shard["join"], ["a", "e0"]), ("L", shard["late"], ["e1"])]
+        for i, (name, kind, ups) in enumerate(order):
+            a, l, kw = args_of(cfg[i], kind)
+            # ---- model: merge the upstream components, then apply the explicit request
+            comp = Comp()
+            err = False
+            for u in ups:
+                cu = comps[u].find()
+                if cu is comp:
+                    continue
+                if cu.loop is not None and comp.loop is not None and cu.loop is not comp.loop:
+                    err = True
+                if cu.mode is not None and comp.mode is not None and bool(cu.mode) != bool(comp.mode):
+                    err = True
+                if comp.loop is None:
+                    comp.loop = cu.loop
+                if comp.mode is None:
+                    comp.mode = cu.mode
+                cu.parent = comp
+            if a is not None:
+                if comp.mode is not None and comp.mode != a:
+                    err = True
+                else:
+                    comp.mode = a
+            if l is not None:
+                if comp.loop is not None and comp.loop is not l:
+                    err = True
+                else:
+                    comp.loop = l
+            if not err:
+                if kind in NEEDS_LOOP and comp.loop is None and comp.mode is None:
+                    comp.mode = False
+                if comp.loop is None and comp.mode is not None:
+                    comp.loop = A if comp.mode else "BG"
+            comps[name] = comp
+            # ---- real
+            try:
+                if kind in ("union", "zip"):
+                    node = getattr(nodes[ups[0]], kind)(nodes[ups[1]], **kw)
+                else:
+                    node = make(kind, nodes[ups[0]] if ups else None, kw)
+                raised = False
+            except ValueError:
+                raised = True
+            if err:
+                # the merge of two branches that already disagree is only detectable when the
+                # join is built; a conflict must never pass silently
+                if not raised:
+                    vd.add("conflict-not-rejected@%s" % name)
+                return vd.result()
+            if raised:
+                vd.add("unexpected-ValueError@%s" % name)
+                return vd.result()
+            nodes[name] = node
+        bg = rec["bg_loops"][0] if rec["bg_loops"] else None
+        for name, kind, ups in order:
+            c = comps[name].find()
+            n = nodes[name]
+            want = bg if c.loop == "BG" else c.loop
+            if n.loop is not None and want is not None and n.loop is not want:
+                vd.add("pipeline-split-across-loops@%s" % name)
+            if kind in NEEDS_LOOP and n.loop is not want:
+                vd.add("loop-requiring-node-on-wrong-loop@%s" % name)
+        return vd.result()
+    finally:
+        restore(saved)
+        world.close()
+
+
 def obligations(tier):
     q = tier == "quick"
     obls = []
@@ -277,4 +404,10 @@ def obligations(tier):
                     if e == "from_textfile" and n1 == "buffer":
                         continue
                     add([e, n1, n2])
+    for e0 in ("Stream", "from_iterable"):
+        for join in ("union", "zip"):
+            for late in (("timed_window", "map") if q else ("timed_window", "buffer", "map", "sink")):
+                obls.append({"name": "join/%s/%s/late=%s" % (e0, join, late), "body": "body_join", "pre": "pre_join",
+                             "shard": {"e0": e0, "join": join, "late": late}, "types": ["int"] * 4,
+                             "budget": 600 if q else 1500})
     return obls
